@@ -95,6 +95,12 @@ def c02(ctx):
     rep.rule("C02.R5", "sibling agreements: is_literal_word = the kinds parse_literal_expression turns into a literal; every token admitted into "
              "a poetic number literal has an arm in the element mapping; `and` separates parameters iff a comma is not required; the "
              "apostrophe-suffix spellings stripped by the lexer are closed under letter case and staged with their own length")
+    rep.rule("C02.R6", "noise agreement: every white-space classification in the lexer (what is skipped between tokens, what ends a word, "
+             "what a word may not contain) resolves to one and the same std function; two different notions of white space leave "
+             "characters that end a word without being skippable, which turns a separator into an error token")
+    rep.rule("C02.R7", "block structure: is_function_terminator is true exactly for an `if` statement that has an else branch (whatever that "
+             "branch contains) and false for every other statement kind -- the table is computed by KIND over all statement kinds")
+    noise_and_blocks(ctx)
     # ---- R1
     pairs, problems = tables.keyword_table(F)
     if pairs is None:
@@ -375,3 +381,73 @@ def c02(ctx):
                         stage.add((next(iter(k)), int(n)))
         ok = stage == {("ApostropheS", 2), ("ApostropheRE", 3)}
         rep.ob("C02.R5", "suffix-staged-with-its-length", ok, "" if ok else "suffix tokens are staged as %s" % sorted(stage), tw.loc(), how="('s, 2) ('re, 3)")
+
+
+
+def noise_and_blocks(ctx):
+    F, rep = ctx.F, ctx.rep
+    # ---- R6
+    uses = {}
+    n = 0
+    for fn in F.all_bodies(tests=False):
+        if fn.file != "src/frontend/lexer.rs":
+            continue
+        for bi, t in fn.calls():
+            nm = t["callee"].get("name") or ""
+            d = callee_def(t) or ""
+            if "whitespace" in nm and "indirect" not in t["callee"] and not t["callee"].get("local"):
+                n += 1
+                uses.setdefault(d, []).append((fn, t))
+    if uses:
+        major = max(uses, key=lambda d: len(uses[d]))
+        for d, sites in sorted(uses.items()):
+            for fn, t in sites:
+                ok = d == major
+                rep.ob("C02.R6", "whitespace-classifier::%s" % common.top_fn(F, fn).path, ok,
+                       "" if ok else "%s classifies white space with %s while the rest of the lexer uses %s: a character on which the two disagree ends a word but is not skipped (or the reverse)" % (
+                           common.top_fn(F, fn).path, d, major), fn.loc(t["line"]), how=major.rsplit("::", 2)[-1])
+    rep.floor("C02.R6", n, 3, "white-space classifications in the lexer")
+    # ---- R7
+    from .. import kind, kindtables as kt
+    fn = F.fn("frontend::parser::is_function_terminator")
+    if fn is None:
+        rep.fail("C02.R7", "anchor", "frontend::parser::is_function_terminator not found")
+        return
+    rep.analysed(fn)
+    I = kind.Interp(F)
+    rows = {}
+    extra = set()
+    for o in I.run(fn, [("sym", "s")]):
+        k = None
+        els = None
+        for c in o.conds:
+            if isinstance(c[0], tuple) and c[0] and c[0][0] == "is":
+                if c[0][1] == ("sym", "s"):
+                    k = c[1]
+                elif c[1] in ("Some", "None") and els is None:
+                    els = c[1]
+                else:
+                    extra.add(str(c[1]))
+            else:
+                extra.add(str(c[0]))
+        rows.setdefault((k, els), set()).add(kt.term(o.ret))
+    if I.incomplete:
+        rep.fail("C02.R7", "table", "the table of is_function_terminator could not be computed completely (%s)" % list(I.incomplete)[:2], fn.loc())
+        return
+    kinds = {v["name"] for v in F.adts.get("frontend::ast::Statement", {"variants": []})["variants"]}
+    seen_kinds = {k for k, _ in rows}
+    ok = seen_kinds == kinds and bool(kinds)
+    rep.ob("C02.R7", "table::covers-all-statement-kinds", ok, "" if ok else "statement kinds without a row: %s" % sorted(kinds - seen_kinds), fn.loc(), how="%d kinds" % len(kinds))
+    for (k, els), rets in sorted(rows.items(), key=str):
+        want = {"True"} if (k == "If" and els == "Some") else {"False"}
+        if k == "If" and els is None:
+            want = None
+        ok = want is not None and rets == want
+        rep.ob("C02.R7", "table::%s%s" % (k, ("/else=" + els) if els else ""), ok,
+               "" if ok else ("is_function_terminator(%s%s) is %s; a function body ends exactly after an if statement with an else branch" % (
+                   k, (", else branch " + els) if els else "", sorted(rets)) if want is not None else "the result for `if` does not depend on whether there is an else branch"),
+               fn.loc(), how=str(sorted(rets)))
+    ok = not extra
+    rep.ob("C02.R7", "table::depends-only-on-kind-and-else", ok, "" if ok else "the result also depends on %s: an if/else ends the function body whatever its branches contain" % sorted(extra), fn.loc(),
+           how="conditions: statement kind, else branch present")
+    rep.exhaustive["C02.R7 statement kinds x else-branch"] = True
